@@ -50,6 +50,36 @@ Section C06.
   Theorem C06_full_only_when_full (t : table node) : AInv t -> alloc node t = Full ->
     last_index t + 1 = cap t /\ real_size t = last_index t /\ forall k, 1 <= k < cap t -> occupied t k.
   Proof. exact (alloc_full node t). Qed.
+  (* the run-level statement.  The concrete state carries a ghost register `peak`, read by nothing, that every successful
+     put sets to max(peak, live count after the put) -- also for the puts inside one ITE / constrain / ... call -- and that
+     collections and cache writes leave alone (first two theorems: that is all that ever writes it; it starts at 1, the
+     terminal).  In EVERY reachable manager state the table's high-water mark equals that running maximum: freed cells
+     are always reused before the table grows, over any history of operations and collections, any hash functions,
+     bucket count, cache sizes and capacity. *)
+  Theorem C06_peak_written_by_put s n s' i : cput_node nhash s n = Some (s', i) -> peak s' = N.max (peak s) (real_size (tbl s')).
+  Proof. exact (peak_put nhash s n s' i). Qed.
+  Theorem C06_peak_kept_by_gc fuel s roots s' : gc nhash khash fuel s roots = Some s' -> peak s' = peak s.
+  Proof. exact (peak_gc nhash khash fuel s roots s'). Qed.
+  Theorem C06_high_water_mark_every_state mr : reachable mr ->
+    last_index (tbl (store mr)) = peak (store mr) /\ real_size (tbl (store mr)) <= peak (store mr).
+  Proof.
+    intro HR. destruct (reachable_good nhash khash _ _ _ _ cap_ok _ HR) as ((HT & _) & _).
+    exact (high_water_is_peak nhash (store mr) HT).
+  Qed.
+  (* a workload whose live set fits can run indefinitely: while one cell is free, no put fails, in any reachable state *)
+  Theorem C06_put_succeeds_when_room mr n : reachable mr ->
+    real_size (tbl (store mr)) + 1 < cap (tbl (store mr)) -> cput_node nhash (store mr) n <> None.
+  Proof.
+    intros HR Hroom. destruct (reachable_good nhash khash _ _ _ _ cap_ok _ HR) as ((HT & _) & _).
+    exact (cput_succeeds_when_room nhash (store mr) n HT Hroom).
+  Qed.
+  (* the same for the bare table under every put / collect history with arbitrary survivor predicates: p' is the maximum
+     of the starting mark and the live counts after every step *)
+  Theorem C06_table_history_peak fuel h (t : table node) p t' p' : AInv t -> TableProto.CInv node nhash pin t -> Peak node t p ->
+    trun_peak node node_eqb nhash fuel t p h = Ok (t', p') -> last_index t' = p' /\ real_size t' <= p'.
+  Proof.
+    intros HA HC HP H. destruct (table_history_peak node node_eqb node_eqb_spec nhash pin fuel h t p t' p' HA HC HP H) as (A & B & _). auto.
+  Qed.
 End C06.
 
 Print Assumptions C06_count_after_gc.
@@ -57,3 +87,8 @@ Print Assumptions C06_alloc.
 Print Assumptions C06_high_water_mark_alloc.
 Print Assumptions C06_high_water_mark_drop.
 Print Assumptions C06_full_only_when_full.
+Print Assumptions C06_peak_written_by_put.
+Print Assumptions C06_peak_kept_by_gc.
+Print Assumptions C06_high_water_mark_every_state.
+Print Assumptions C06_put_succeeds_when_room.
+Print Assumptions C06_table_history_peak.
